@@ -92,12 +92,22 @@ CHECKS["C01"] = ("model_checking",
     "Totality is decided by exploration tied to the enumerated decision tables, not by proof; a 60 s watchdog stands for 'loops without progress'.",
     "§4 C01")
 
+CHECKS["C12"] = ("exploration",
+    "The statement is statistical: its acceptance criterion (efficiency >= 95 %, median |dz| <= 1.5 cm, 90th percentile <= 5 cm, median transverse error <= 4 cm, |median dz| <= 3 mm per batch of >= 200 events) is written as Accuracy.tla over integer positions in units of 10 um; MC_Accuracy checks that its quantile operator is a k-th order statistic. The forward model named in the statement is the harness's synthesiser (sim.rs, independent of the library's reconstruction: inverse lookup in the shipped drift tables, shipped response functions, neighbour induction, spec-conformant ADC/PWB/TRG banks, simulation run number, noise-free); 3 (30) batches of 200 (400) events are reconstructed by the library and each batch is judged by TLC (Trace_Accuracy). On the unchanged tree: efficiency 97.5-100 %, median |dz| about 3 mm, p90 about 12 mm, median transverse about 2 cm, bias below 1 mm.",
+    "Sampling, not exhaustion; the forward model is trusted as the statement's 'independent forward model'. The thresholds of the statement are centimetre-scale, so only changes that move reconstructed vertices by millimetres to centimetres, or lose more than 5 % of the events, are visible here (e.g. a pad row taken one off is caught, a sign flip of the Lorentz correction is not).",
+    "§4 C12")
+
 NOT_APPLICABLE = {
-    "C12": "population statistics of a floating-point pipeline against a physical forward model; TLA+/TLC has no reals or floats, so the spec cannot be the oracle",
     "C16": "decisive clause is a floating-point global minimisation over a continuum; only a numeric brute force could referee it, which is a different technique",
 }
 
 PENDING = {}
+
+TECH_OVERRIDE = {
+    "C12": "explicit TLA+ specification of the statement's acceptance criterion (Accuracy.tla); TLC trace validation of recorded batches of forward-model events reconstructed by the library (E3); TLC model check of the order-statistic operators (E1)",
+    "C19": "explicit TLA+ spec; TLC model checking incl. liveness under fairness (E1); spec-generated runs replayed through the real binaries (E2); TLC trace validation of recorded runs (E3); Apalache inductive invariant for the unwrap arithmetic (thorough)",
+    "C20": "explicit TLA+ spec; TLC model checking (E1); spec-generated streams replayed through the real binary (E2); TLC trace validation of recorded runs (E3); Apalache inductive invariant for the epoch arithmetic (thorough)",
+}
 
 
 def main():
@@ -115,7 +125,7 @@ def main():
                 "engine": "tlc",
                 "level_claimed": {"category": cat, "text": text, "design_ref": "DESIGN.md " + ref},
                 "level_note": note,
-                "technique": TECH,
+                "technique": TECH_OVERRIDE.get(pid, TECH),
             })
     na = []
     for pid in props:
